@@ -1,14 +1,18 @@
 import HypatiaProofs.Lemmas.QueryCompl
 import HypatiaProofs.Lemmas.QueryEndToEnd
+import HypatiaProofs.Lemmas.QuerySem
+import HypatiaProofs.Lemmas.QueryEndToEndExample
+import HypatiaProofs.Properties.C03
 
 /-!
 # C04  And/Or/Not compose query results as intersection, union and complement
 
 `applyQ cat q` is the model of `q._apply(names)` / `q.execute(optimize=False)` over a catalog
-whose comparators are answered at specification level.  For field and keyword/facet indexes that is
-justified by a theorem, not by reference: `c04_end_to_end` composes C01/C02 with this file – the same
+whose comparators are answered at specification level.  For all four index kinds that is
+justified by a theorem, not by reference: `c04_end_to_end` composes C01/C02/C13/C03 with this file – the same
 `_apply` composition (one definition, `applyQL`, parametric in the leaf oracle) run over the index *models*
-after arbitrary histories has the same outcome on every tree (text leaves stay at specification level).
+(field, keyword, facet, text) after arbitrary histories has the same outcome on every tree; a text leaf
+carries a query string of the text query language (`c04_text_leaf`).
 Statements only; proofs of the lemmas are in `Lemmas/Query*.lean`.
 -/
 namespace Hyp.Query
@@ -81,46 +85,107 @@ theorem c04_notall_violates_complement :
     applyQ cat (.not (.cmp .all 0 (.many [1, 2]))) = .ok [1] ∧
     docs cat = [3, 2, 1] := ⟨rfl, rfl, rfl⟩
 
-/-! ## composition with C01/C02: leaves answered by the index models -/
+/-- **`_apply` computes the set-theoretic reading.**  `sem` reads the tree as the property does: a comparator
+= its own meaning, `And` = intersection, `Or` = union of the operands' sets, `Not` = complement in the catalog's
+documents.  For every catalog and every tree of any depth and arity whose comparators are implemented by their
+index classes: `sem` exists and `_apply` returns exactly its members – for trees containing a `Not` under the
+hypothesis of the complement clause (`Total`).
 
-/-- **End to end.**  For all histories of all indexes of the catalog (field: index / re-index / no value /
-unindex / reset, C01; keyword: the same plus `optimize()` and threshold changes, C02), for every tree:
-`_apply` over the index models (`applyQM`: leaves are the models' `applyEq … applyNotInRange`, `_negate`
-with its short-cuts) raises exactly when `_apply` over the specification tables raises – the same error –
-and otherwise returns the same members.  So every theorem of this file and of C05 about `applyQ` holds for
-the composed models. -/
-theorem c04_end_to_end (hs : List IndexH) (q : Q) :
+Partial: `wellTypedStrict` excludes `All`/`NotAll` (finding D2, `c04_notall_violates_complement`); full
+statement: the same with `wellTyped`. -/
+theorem c04_apply_is_sem_partial (cat : Catalog) (q : Q) (hw : wellTypedStrict cat q = true)
+    (hT : Total cat ∨ noNot q = true) :
+    ∃ r r', applyQ cat q = .ok r ∧ sem cat q = .ok r' ∧ ∀ d, d ∈ r ↔ d ∈ r' := by
+  obtain ⟨r', h1, h2⟩ := sem_val cat _ q (Nat.le_refl _) hw hT
+  exact ⟨val cat q, r', applyQ_val (strict_wellTyped hw), h1, fun d => (h2 d).symm⟩
+
+/-! ## composition with C01/C02/C13/C03: leaves answered by the index models -/
+
+/-- **End to end.**  For all histories of all indexes of the catalog – field (index / re-index / no value /
+unindex / reset, C01), keyword (the same plus `optimize()` and threshold changes, C02), facet (configured
+facet set, paths, C13), text (lexicon configuration, both back ends, C03) – and for every tree:
+`_apply` over the index models (`applyQM`: leaves are the models' `applyEq … applyNotInRange`,
+`applyContains/applyNotContains` of the query *strings*, `_negate` with its short-cuts) raises exactly when
+`_apply` over the specification tables raises – the same error – and otherwise returns the same members.
+So every theorem of this file and of C05 about `applyQ` holds for the composed models.
+
+Hypotheses, both decidable and evaluated by the driver: `HistsOK` = C03's hypotheses for every text index of
+the catalog (`histOK`: fewer than 2^28 words, every query string of its dictionary accepted by the parser and
+`admissible` – finding D14); `leavesListed` = the tree's text leaves name query strings of the dictionary.
+Nothing is assumed about field, keyword and facet indexes (`c04_end_to_end_no_text`). -/
+theorem c04_end_to_end (hs : List IndexH) (q : Q) (hok : HistsOK hs) (hq : leavesListed hs q = true) :
     (∀ e, applyQM (modelCatalog hs) q = .error e ↔ applyQ (specCatalog hs) q = .error e) ∧
     (∀ r, applyQM (modelCatalog hs) q = .ok r →
       ∃ r', applyQ (specCatalog hs) q = .ok r' ∧ ∀ d, d ∈ r ↔ d ∈ r') ∧
     (∀ r', applyQ (specCatalog hs) q = .ok r' →
       ∃ r, applyQM (modelCatalog hs) q = .ok r ∧ ∀ d, d ∈ r ↔ d ∈ r') := by
-  have h := applyQM_refines hs q
+  have h := applyQM_refines hs hok q hq
   refine ⟨(ResEq.ok_iff h).2, (ResEq.ok_iff h).1, fun r' hr' => ?_⟩
   obtain ⟨r, hr, he⟩ := (ResEq.ok_iff (ResEq.symm h)).1 r' hr'
   exact ⟨r, hr, fun d => (he d).symm⟩
+
+/-- …without hypotheses for catalogs of field, keyword and facet indexes (the statement `c04_end_to_end` had
+before facet and text models joined the composition, now including facet indexes) -/
+theorem c04_end_to_end_no_text (hs : List IndexH) (hnt : hs.all noText = true) (q : Q) :
+    (∀ e, applyQM (modelCatalog hs) q = .error e ↔ applyQ (specCatalog hs) q = .error e) ∧
+    (∀ r, applyQM (modelCatalog hs) q = .ok r →
+      ∃ r', applyQ (specCatalog hs) q = .ok r' ∧ ∀ d, d ∈ r ↔ d ∈ r') ∧
+    (∀ r', applyQ (specCatalog hs) q = .ok r' →
+      ∃ r, applyQM (modelCatalog hs) q = .ok r ∧ ∀ d, d ∈ r ↔ d ∈ r') :=
+  c04_end_to_end hs q (histsOK_of_noText hs hnt) (leavesListed_of_noText hs hnt q)
+
+/-- what a text leaf of the composed catalog is: `Contains x` on a text index model is
+`TextIndex.applyContains` of the `x`-th query string and – by C03 (`c03_apply`) – returns exactly the
+documents whose token sequence satisfies the parsed string read as boolean logic -/
+theorem c04_text_leaf (cfg : Lex.Cfg) (okapi : Bool) (sp : Nat → Bool) (qs : List QP.Str) (h : List Text.Op)
+    (hok : histOK (.text cfg okapi sp qs h) = true) (x : Nat) (hx : x < qs.length) :
+    ∃ t ig r, QP.parseQuery (Text.lexOf cfg) sp qs[x] = .ok (t, ig) ∧
+      Text.applyContains cfg sp (Text.run cfg okapi h) qs[x] = .ok (some r) ∧
+      applyQM (modelCatalog [.text cfg okapi sp qs h]) (.cmp .contains 0 (.one x)) = .ok r ∧
+      ∀ d, d ∈ r ↔ ∃ toks, Text.Spec.tokensOf (Text.Spec.table cfg h) d = some toks ∧
+        Text.Spec.sat t toks = true := by
+  obtain ⟨hs, hq⟩ := histOK_text hok
+  obtain ⟨t, ig, hp, hadm⟩ := queryOK_spec (hq _ (List.getElem_mem hx))
+  obtain ⟨r, h1, h2⟩ := Text.c03_apply cfg okapi sp h qs[x] t ig hs hp hadm
+  refine ⟨t, ig, r, hp, h1, ?_, h2⟩
+  have hn : nth qs [] (x : Int) = qs[x] := by
+    have : ¬ ((x : Int) < 0) := by omega
+    unfold nth; simp [List.getElem?_eq_getElem hx, this]
+  show (do let ix ← getIndexM [IndexM.text cfg sp qs (Text.run cfg okapi h)] 0; leafIndexM ix .contains (.one x)) = _
+  simp only [getIndexM, List.getElem?_cons_zero, bind, Except.bind, leafIndexM, Cmp.positive, leafPosM, textPos,
+    hn]
+  rw [show Text.applyContains cfg sp (Text.run cfg okapi h) qs[x] = .ok (some r) from h1]
 
 /-- the congruence behind it: `_apply` depends on the leaf answers only up to member-wise equality
 (the short-cuts of `intersect`/`union` and `And`'s early exit test emptiness only) -/
 theorem c04_apply_congruence (L1 L2 : Leaves) (h : LeavesEq L1 L2) (q : Q) :
     ResEq (applyQL L1 q) (applyQL L2 q) := applyQL_congr h q
 
+/-- …and only at the leaves of the tree -/
+theorem c04_apply_leaves_only (L1 L2 : Leaves) (p : Cmp → Nat → Val → Bool)
+    (hp : ∀ c i v, p c i v = true → p c.negate i v = true)
+    (hc : ∀ c i v, p c i v = true → L1.cmp c i v = L2.cmp c i v) (hr : L1.range = L2.range)
+    (q : Q) (hq : leavesAll p q = true) : applyQL L1 q = applyQL L2 q :=
+  applyQL_ext hp hc (fun _ _ _ _ _ _ => by rw [hr]) q hq
+
 /-- e.g. totality and And = intersection, transported to the composed models -/
-theorem c04_and_end_to_end (hs : List IndexH) (qs : List Q)
+theorem c04_and_end_to_end (hs : List IndexH) (qs : List Q) (hok : HistsOK hs)
+    (hq : leavesListed hs (.and qs) = true)
     (hw : wellTyped (specCatalog hs) (.and qs) = true) :
     ∃ r, applyQM (modelCatalog hs) (.and qs) = .ok r ∧
       ∀ d, d ∈ r ↔ ∀ q ∈ qs, ∃ rq, applyQM (modelCatalog hs) q = .ok rq ∧ d ∈ rq := by
   obtain ⟨hne, hall⟩ := (wellTyped_and supports _ qs).mp hw
-  obtain ⟨r, hr, he⟩ := (c04_end_to_end hs (.and qs)).2.2 _ (applyQ_val hw)
+  have hqs := (leavesAll_and _ qs).mp hq
+  obtain ⟨r, hr, he⟩ := (c04_end_to_end hs (.and qs) hok hq).2.2 _ (applyQ_val hw)
   refine ⟨r, hr, fun d => ?_⟩
   rw [he d, val_and hw]
   constructor
   · intro h q hq
-    obtain ⟨rq, hrq, heq⟩ := (c04_end_to_end hs q).2.2 _ (applyQ_val (hall q hq))
+    obtain ⟨rq, hrq, heq⟩ := (c04_end_to_end hs q hok (hqs q hq)).2.2 _ (applyQ_val (hall q hq))
     exact ⟨rq, hrq, (heq d).mpr (h q hq)⟩
   · intro h q hq
     obtain ⟨rq, hrq, hd⟩ := h q hq
-    obtain ⟨r', hr', heq⟩ := (c04_end_to_end hs q).2.1 rq hrq
+    obtain ⟨r', hr', heq⟩ := (c04_end_to_end hs q hok (hqs q hq)).2.1 rq hrq
     have : r' = val (specCatalog hs) q := by simp [val, hr']
     rw [← this]; exact (heq d).mp hd
 
@@ -137,6 +202,34 @@ example :
     applyQM (modelCatalog hs) q = .ok [1, 4] ∧ applyQ (specCatalog hs) q = .ok [1, 4] ∧
       applyQM (modelCatalog hs) (.range true 0 5 6 false true) = .ok [1, 3] ∧
       applyQ (specCatalog hs) (.range true 0 5 6 false true) = .ok [3, 1] := ⟨rfl, rfl, rfl, rfl⟩
+
+/-! non-vacuity with all four kinds (`exHs`, `Lemmas/QueryEndToEndExample.lean`): a field index with a re-index
+and a value-less document, a keyword index, a facet index with hierarchical paths, a repeated configured
+facet, `optimize()` and a name that is not configured, and a text index (stop word, upper-case, re-index,
+a document without text) with the query strings `b`, `a b`, `b AND NOT c`.  The catalog satisfies `HistsOK`,
+the tree `leavesListed` and `wellTyped`; its answer is `{1}` (evaluated: `applyQM` and `applyQ` both print
+`[1]`, and `[2, 3]` / `[3, 2]` for `Not` of it); the text leaf is proved to return `[1]`. -/
+private def exQ : Q :=
+  .and [.cmp .contains 3 (.one 2), .cmp .eq 2 (.one 1), .not (.cmp .lt 0 (.one 6)), .cmp .notany 1 (.many [7])]
+
+example : HistsOK exHs ∧ leavesListed exHs exQ = true ∧ leavesListed exHs (.not exQ) = true ∧
+    wellTyped (specCatalog exHs) exQ = true := ⟨exHs_ok, by decide, by decide, by decide⟩
+
+example : applyQM (modelCatalog exHs) (.cmp .contains 3 (.one 2)) = .ok [1] := by
+  show (do let ix ← getIndexM (modelCatalog exHs) 3; leafIndexM ix .contains (.one 2)) = _
+  simp only [getIndexM, modelCatalog, exHs, List.map, modelIndex, List.getElem?_cons_succ,
+    List.getElem?_cons_zero, bind, Except.bind, leafIndexM, Cmp.positive, leafPosM, textPos, Text.applyContains,
+    Text.apply, nth, exQs]
+  simp only [show ¬ ((2 : Int) < 0) by decide, if_false, show (2 : Int).toNat = 2 from rfl,
+    List.getElem?_cons_succ, List.getElem?_cons_zero, Option.getD, ex_parse2]
+  rfl
+
+/-- the facet and field/keyword leaves of the same catalog evaluate by `rfl` -/
+example :
+    applyQM (modelCatalog exHs) (.and [.cmp .eq 2 (.one 1), .not (.cmp .lt 0 (.one 6)),
+      .cmp .notany 1 (.many [7])]) = .ok [1] ∧
+    applyQM (modelCatalog exHs) (.cmp .any 2 (.many [0, 3, 17])) = .ok [1, 2] ∧
+    applyQM (modelCatalog exHs) (.cmp .noteq 2 (.one 2)) = .ok [1, 3] := ⟨rfl, rfl, rfl⟩
 
 /-! non-vacuity: a Total catalog (field + keyword), a strict well-typed tree with nested Not -/
 example :
